@@ -187,13 +187,36 @@ def _mk_state_class(name, base, state_idx, log):
     return cls
 
 
-def h_state(state, marker, pos):
+def _failed_load_before(kind):
+    """'Loading always succeeds' holds on a thread whatever that thread loaded before, failed loads included."""
+    if kind == 1:
+        _attempt(lambda: rp.loads(b"garbage"))
+    elif kind == 2:
+        class _E(Exception):
+            pass
+
+        def __getstate__(self, remote=False):
+            return {"a": 1}
+
+        def __setstate__(self, st):
+            raise _E()
+        cls = type.__call__(type(object), "RBoom", (object,), {"__module__": "vf_dyn_classes", "__qualname__": "RBoom",
+                                                               "__getstate__": __getstate__, "__setstate__": __setstate__})
+        setattr(pk.DYN, "RBoom", cls)
+        data = rp.dumps([cls.__new__(cls)])
+        _attempt(lambda: rp.loads(data))
+        _attempt(lambda: rp.loads(data[:len(data) // 2]))
+
+
+def h_state(state, marker, pos, pre=0):
     with notrace():
         snap = pk.snapshot()
         try:
             state_, marker_, pos_ = _c(state, len(FALSY)), _c(marker, 2), _c(pos, 3)
-            ev("state", state_, marker_, pos_)
+            pre_ = _c(pre, 3)
+            ev("state", state_, marker_, pos_, pre_)
             import pickle
+            _failed_load_before(pre_)
             log_r, log_s = [], []
             base = rp.SupportRemoteGetState if marker_ else object
             R = _mk_state_class("RS", base, state_, log_r)
@@ -226,11 +249,12 @@ def h_state(state, marker, pos):
 
 
 H_STATE = Harness(
-    "state", "vf.props.c14:h_state", OrderedDict([("state", (0, len(FALSY) - 1)), ("marker", (0, 1)), ("pos", (0, 2))]),
+    "state", "vf.props.c14:h_state", OrderedDict([("state", (0, len(FALSY) - 1)), ("marker", (0, 1)), ("pos", (0, 2)), ("pre", (0, 2))]),
     tiers={"quick": {"partition": ["marker"], "timeout": 120, "twin_fixed": {"marker": 1}}},
     functions=_FUNCS,
 )
 
 SPEC.harnesses.append(H_STATE)
+SPEC.assumptions.append("harness 'state', pre > 0: the same thread has made failing loads before (garbage; a class whose __setstate__ raises; a truncated stream)")
 SPEC.assumptions.append("harness 'state': classes whose remote state is one of None, 0, False, 0.0, '', (), [], {}, {'k': 0}; the reference is a plain twin class "
                         "through the standard pickle module (BUILD is emitted for every state that is not None)")
